@@ -10,9 +10,10 @@ from .visualisation.dimensionality_reduction import DimensionalityReducer
 def get_individual_id(individual: Individual) -> str:
     """
     Tree structure in `treelib` requires identifiers for nodes. This function returns
-    a string representation of the individual's genome, which usually is unique for each individual.
+    the individual's unique id (the string rendering of a genome is rounded to a few digits,
+    so distinct but close individuals would otherwise share an identifier and be dropped).
     """
-    return str(individual.genome)
+    return str(individual.uuid)
 
 
 class NearestBetterClustering:
